@@ -604,6 +604,27 @@ func (ex *Exec) evalCall(st *State, c *ECall, env *Env, cl *Clause) Value {
 			return s.Cap
 		}
 		ex.evalFail(cl, "cap of %T", v)
+	case "row":
+		// row(s): the elements of a byte/integer slice as an array indexed from 0 (for spec functions over arr)
+		v := ex.evalIn(st, c.Args[0], env, cl)
+		if p, ok := v.(*VPtr); ok {
+			v = ex.specLoad(st, p)
+		}
+		sl, ok := v.(*VSlice)
+		if !ok {
+			ex.evalFail(cl, "row of %T", v)
+		}
+		if _, isLeaf := leafSort(sl.Elem); !isLeaf {
+			ex.evalFail(cl, "row: element type %s is not scalar", sl.Elem)
+		}
+		h := st.heap(heapKey(sl.Elem, Leaf{"", mustLeafSort(sl.Elem), sl.Elem}), HeapOf(mustLeafSort(sl.Elem)))
+		if o, isLit := sl.Off.Int64(); isLit && o == 0 {
+			return Select(h, sl.Ref)
+		}
+		view := ex.fresh("rowview", ArrayOf(mustLeafSort(sl.Elem)))
+		k := Var("k!row", SInt)
+		st.assume(Forall([]*Term{k}, Eq(Select(view, k), Select(Select(h, sl.Ref), Idx(sl.Off, k)))))
+		return view
 	case "fresh":
 		v := ex.evalIn(st, c.Args[0], env, cl)
 		return ex.freshPred(st, v, env, cl)
@@ -819,9 +840,9 @@ func (ex *Exec) LoadSpec() error {
 			cl := &Clause{File: ax.File, Line: ax.Line}
 			t := ex.evalBool(dummy, ax.E, env, cl)
 			ax.term = t
-			if !ax.IsLemma {
-				ex.addAxiom(ax.Label, t, false, ax.Triggers)
-			}
+			// a lemma is proved from the definitions alone on every run (Session.LemmaResults)
+			// and may then be used like an axiom
+			ex.addAxiom(ax.Label, t, ax.IsLemma, ax.Triggers)
 		}
 	}()
 	return err
